@@ -182,6 +182,9 @@ func runC09(r *run) {
 		format := []string{"c", "l", "j"}[g.intn(3)]
 		lvl := append(append([]int{}, encLevels...), 57, 58, 57, 58)[g.intn(len(encLevels)+4)]
 		tagW, minW := 1+g.intn(5), 16+g.intn(30)
+		if i%5 == 4 {
+			minW = 90 + g.intn(90) // a message column wider than any constant a fast path may pad from
+		}
 		probe := func() *encCase {
 			c := &encCase{format: format, lvl: lvl, ts: time.Date(2024, 2, 29, 12, 30, 45, 123456789, time.UTC), attrs: nil, caller: false, tagW: tagW, minW: minW, name: "probe"}
 			return c
